@@ -217,3 +217,59 @@ fn script_batch() {
         println!("VERIF-OUT {} {}", i, out);
     }
 }
+
+/// line: `<max_jobs> <parent jobserver in MAKEFLAGS 0|1> <REDO_CHEATFDS inherited 0|1>`
+/// The parent's pipes are real pipes on fds 100/101 (tokens) and 102/103 (cheats), as redo itself would have created them.
+#[test]
+fn setup_batch() {
+    for (i, l) in lines().iter().enumerate() {
+        let parts: Vec<&str> = l.split(' ').collect();
+        let mj: i32 = parts[0].parse().unwrap();
+        let parent = parts[1] == "1";
+        let cheat = parts[2] == "1";
+        for k in [JobServer::ENV_MAKEFLAGS, JobServer::ENV_CHEATFDS].iter() {
+            std::env::remove_var(k);
+        }
+        let ptok = if parent { Some(make_pipe(100).unwrap()) } else { None };
+        let pcheat = if cheat { Some(make_pipe(102).unwrap()) } else { None };
+        if let Some((a, b)) = ptok {
+            std::env::set_var(JobServer::ENV_MAKEFLAGS, format!(" -j --jobserver-auth={0},{1} --jobserver-fds={0},{1}", a, b));
+        }
+        if let Some((a, b)) = pcheat {
+            std::env::set_var(JobServer::ENV_CHEATFDS, format!("{},{}", a, b));
+        }
+        let out = match JobServer::setup(mj) {
+            Ok(mut server) => {
+                let p = server.params.clone();
+                server.dropped = true;
+                let tok_parent = Some(p.token_fds) == ptok;
+                let cheat_parent = Some(p.cheat_fds) == pcheat;
+                let own_tokens = if tok_parent { "None".to_string() } else { drain_count(p.token_fds.0).to_string() };
+                let parent_written = ptok.map(|(r, _)| drain_count(r)).unwrap_or(0);
+                let s = format!(
+                    "OK TOK={} CHEAT={} TOP={} OWNTOKENS={} PARENTWRITTEN={}",
+                    if tok_parent { "parent" } else { "own" },
+                    if cheat_parent { "parent" } else { "own" },
+                    p.top_level,
+                    own_tokens,
+                    parent_written
+                );
+                if !tok_parent {
+                    let _ = unistd::close(p.token_fds.0);
+                    let _ = unistd::close(p.token_fds.1);
+                }
+                if !cheat_parent {
+                    let _ = unistd::close(p.cheat_fds.0);
+                    let _ = unistd::close(p.cheat_fds.1);
+                }
+                s
+            }
+            Err(e) => format!("ERR {}", e.to_string().replace('\n', " ")),
+        };
+        for fds in [ptok, pcheat].iter().flatten() {
+            let _ = unistd::close(fds.0);
+            let _ = unistd::close(fds.1);
+        }
+        println!("VERIF-OUT {} {}", i, out);
+    }
+}
